@@ -994,6 +994,87 @@ theorem gjk_full_simplex_contains_origin2 (s1 s2 : Vs2 K) (pr : V2 K) (hok : Vs2
     · omega
     · rw [e] at hm; exact hm
 
+
+/-! ## variational inequality of the reduction, and the slack of the `add_point`-refused exit -/
+
+/-- **variational inequality (3-D, dim ≤ 2)**: `p·(q - p) ≥ 0` for every point `q` of the simplex (`p` = returned projection). -/
+theorem reduce3_variational_partial (s s' : Vs3 K) (p q : V3 K) (hok : Vs3Ok s) (hd : s.dim ≤ 2) :
+    letI := fieldNum K sq
+    s.projectOriginAndReduce = some (s', p) → Hull3 sq s q → 0 ≤ p.dot (q.sub p) := by
+  letI := fieldNum K sq
+  intro h hq
+  rcases reduce3_pt s s' p h hd with ⟨h0, rfl⟩ | ⟨h1, rfl⟩ | ⟨h2, rfl⟩
+  · rcases hq with ⟨_, rfl⟩ | ⟨e, _⟩ | ⟨e, _⟩
+    · simp [V3.dot, V3.sub]
+    · omega
+    · omega
+  · rcases hq with ⟨e, _⟩ | ⟨_, hm⟩ | ⟨e, _⟩
+    · omega
+    · have := C05.seg3_project_variational sq _ V3.zero q hm
+      simp only [V3.dot, V3.sub, V3.zero] at this ⊢
+      linarith
+    · omega
+  · rcases hq with ⟨e, _⟩ | ⟨e, _⟩ | ⟨_, hm⟩
+    · omega
+    · omega
+    · have := C05.tri3_project_variational sq _ V3.zero q true (hok h2) hm
+      simp only [V3.dot, V3.sub, V3.zero] at this ⊢
+      linarith
+
+/-- **variational inequality (2-D, dim ≤ 1)** -/
+theorem reduce2_variational_partial (s s' : Vs2 K) (p q : V2 K) (hd : s.dim ≤ 1) :
+    letI := fieldNum K sq
+    s.projectOriginAndReduce = some (s', p) → Hull2 sq s q → 0 ≤ p.dot (q.sub p) := by
+  letI := fieldNum K sq
+  intro h hq
+  rcases reduce2_pt s s' p h with ⟨h0, rfl⟩ | ⟨h1, rfl⟩ | ⟨h2, _⟩
+  · rcases hq with ⟨_, rfl⟩ | ⟨e, _⟩ | ⟨e, _⟩
+    · simp [V2.dot, V2.sub]
+    · omega
+    · omega
+  · rcases hq with ⟨e, _⟩ | ⟨_, hm⟩ | ⟨e, _⟩
+    · omega
+    · have := C05.seg2_project_variational sq _ V2.zero q hm
+      simp only [V2.dot, V2.sub, V2.zero] at this ⊢
+      linarith
+    · omega
+  · omega
+
+/-- **slack of the `add_point`-refused exit** (3-D form; the 2-D one is the case `z = 0`): `proj = -mb·dir` with `dir` a unit vector,
+`v` a vertex satisfying the variational inequality `proj·(v - proj) ≥ 0`, and the new support point `w` within `ε_rel` of `v`
+(`|v - w|² < ε_tol = ε_rel²`, the duplicate test of 2-D `add_point` / the `dim = 0` test in 3-D). Then
+`max_bound - min_bound ≤ ε_rel` with `min_bound = -dir·w`: the exit carries an ABSOLUTE slack `ε_rel = √(10ε)`. -/
+theorem gjk_duplicate_slack3 (proj dir v w : V3 K) (mb epsRel epsTol' : K)
+    (hunit : dir.x * dir.x + dir.y * dir.y + dir.z * dir.z = 1) (hmb : 0 < mb)
+    (hp : proj.x = -(dir.x * mb) ∧ proj.y = -(dir.y * mb) ∧ proj.z = -(dir.z * mb))
+    (hvar : 0 ≤ proj.x * (v.x - proj.x) + proj.y * (v.y - proj.y) + proj.z * (v.z - proj.z))
+    (he : 0 ≤ epsRel) (hee : epsRel * epsRel = epsTol')
+    (hdup : (v.x - w.x) * (v.x - w.x) + (v.y - w.y) * (v.y - w.y) + (v.z - w.z) * (v.z - w.z) < epsTol') :
+    mb - (-(dir.x * w.x + dir.y * w.y + dir.z * w.z)) ≤ epsRel := by
+  obtain ⟨px, py, pz⟩ := hp
+  rw [px, py, pz] at hvar
+  -- -dir·v ≥ mb
+  have h1 : mb ≤ -(dir.x * v.x + dir.y * v.y + dir.z * v.z) := by
+    have e : -(dir.x * mb) * (v.x - -(dir.x * mb)) + -(dir.y * mb) * (v.y - -(dir.y * mb)) +
+        -(dir.z * mb) * (v.z - -(dir.z * mb)) =
+        mb * (-(dir.x * v.x + dir.y * v.y + dir.z * v.z) - mb * (dir.x * dir.x + dir.y * dir.y + dir.z * dir.z)) := by ring
+    rw [e, hunit, mul_one] at hvar
+    have : 0 ≤ mb * (-(dir.x * v.x + dir.y * v.y + dir.z * v.z) - mb) := hvar
+    by_contra hc
+    push Not at hc
+    nlinarith
+  -- |dir·(w - v)| ≤ |w - v| < epsRel
+  have cs : (dir.x * (w.x - v.x) + dir.y * (w.y - v.y) + dir.z * (w.z - v.z)) ^ 2 ≤
+      (v.x - w.x) * (v.x - w.x) + (v.y - w.y) * (v.y - w.y) + (v.z - w.z) * (v.z - w.z) := by
+    have := hunit
+    nlinarith [sq_nonneg (dir.x * (w.y - v.y) - dir.y * (w.x - v.x)), sq_nonneg (dir.x * (w.z - v.z) - dir.z * (w.x - v.x)),
+      sq_nonneg (dir.y * (w.z - v.z) - dir.z * (w.y - v.y))]
+  have h2 : dir.x * (w.x - v.x) + dir.y * (w.y - v.y) + dir.z * (w.z - v.z) ≤ epsRel := by
+    by_contra hc
+    push Not at hc
+    nlinarith
+  linarith
+
 /-! ## non-vacuity of the hypotheses -/
 
 /-- `Vs2Ok` holds for a genuine triangle simplex (vertices (2,1), (-1,1), (0,-2): the origin is inside) -/
